@@ -353,8 +353,14 @@ def find_irrelevant_type(etype: tp.Type, types: List[tp.Type],
         # type arguments in order to pass type arguments that are irrelevant
         # with any parameterized type created by this type constructor.
         type_list = [t for t in types if t != etype]
-        return get_irrelevant_parameterized_type(
+        ir_type = get_irrelevant_parameterized_type(
                 t, type_list, type_args_map, factory)
+        if ir_type is not None and (ir_type.is_subtype(etype) or
+                                    etype.is_subtype(ir_type)):
+            # The instantiation of a generic sub/superclass of `etype` may
+            # still be related to it.
+            return None
+        return ir_type
     return t
 
 
